@@ -73,6 +73,7 @@ type AtomRow struct {
 }
 type AtomTab struct {
 	Pat     string    `json:"pat"`
+	AST     *ReAST    `json:"ast"` // the pattern's syntax tree (Go parser, Perl flags): input of the Coq model of the translation
 	Literal bool      `json:"literal"` // pattern is a pure literal
 	Anchors bool      `json:"anchors"` // pattern contains an explicit position assertion (^ $ \A \z \b \B)
 	Rows    []AtomRow `json:"rows"`
@@ -372,6 +373,16 @@ var (
 		"web-1|web-2", "a.c", "^a", "[0-9]+", "é", "x,y", "web.*", ".*b", "a|", "(web)", "^w.*b$", "e", "A", "(?i)a", "b|d", "we"}
 )
 
+// further patterns of the pattern x value matrix: one for every branch of the translation (prefix extraction, or-values and
+// their size limit, the optimised prefix / suffix / middle matchers, the generic literal pre-check, anchors in every
+// position, captures, repetition, case folding, classes, escapes, multi-byte runes)
+var matrixPats = []string{"web.+", ".+b", ".+b.*", ".*b.+", ".+b.+", ".*web.*", "(web).*", "w.b", "w.*b", "[a-c]x", "x[a-c]",
+	"[a-z]", "[a-t]", "[a-u]", "(a|b)(c|d)", "(a|b|c)(0|1|2)(x|y|z)", "a?", "ab?", "a+", "(ab)+", "a{2}", "a{1,2}", "^a.c$",
+	"^[wd]", "[wd]$", "^(web)", "web$", "^.*$", "^.+$", ".", "..", "\\.", "a\\.b", "\\d+", "\\w+", "web-\\d", "[^a]", "(?i)web",
+	"(?i)w.*", "web|", "(web|db)-1", "(web|db).*", "web-(1|2)0?", "^(a|ab)$", "a|ab", "é.", "日.", "\\bweb", "web\\b",
+	"(?m)^a", "(?s).", "a.*c", "^web-", "-1$", "^(web|db)", "(web|db)$", "^w", "x$", "^web.*", ".*b$", "^.*b$", "^web-[0-9]$",
+	"web-[0-9]+", "^web-[0-9]+$", "(a)(b)", "a(b|c)d", "^$|a", "(^a)", "(a$)", "a|b|c", "ab|cd", "abc|abd"}
+
 type genState struct {
 	r      *gen.Rand
 	series []*ser
@@ -627,7 +638,7 @@ func (rn *runner) finishAtoms() {
 		for _, id := range g2 {
 			in[id] = true
 		}
-		t := AtomTab{Pat: p, Literal: isPureLiteral(p), Anchors: hasAnchors(p)}
+		t := AtomTab{Pat: p, AST: parseAST(p), Literal: isPureLiteral(p), Anchors: hasAnchors(p)}
 		for _, v := range vl {
 			t.Rows = append(t.Rows, AtomRow{V: v, U: matchU(p, v), A: matchA(p, v), I: in[idOf[v]]})
 		}
@@ -756,6 +767,12 @@ func main() {
 		args = args[1:]
 	}
 	idx := 0
+	if os.Getenv("C10_NO_MATRIX") == "" {
+		// the pattern x value matrix of the regular-expression translation (deterministic, once per run)
+		dir := filepath.Join(base, "matrix")
+		gen.Emit(regexMatrix(dir, append(append([]string{}, pats...), matrixPats...)))
+		os.RemoveAll(dir)
+	}
 	// corpus / replay files first
 	for _, f := range args {
 		data, err := os.ReadFile(f)
